@@ -2,6 +2,7 @@
 CONSTANTS
   Keys = {"a", "b", "c"}
   Reqs = {1, 2, 3}
+  Kinds = {"plain", "ws"}
   CacheSize = 2
   Burst = 2
   Rate = 1
@@ -11,7 +12,6 @@ CONSTANTS
   DeferRelease = TRUE
   WatchTime = 0
   WatchEvict = 0
-  SimDepth = 0
 INIT MCInit
 NEXT MCNextNoWatch
 VIEW ViewReplay
